@@ -10,6 +10,12 @@ HOLDS = [0, 0, 0.5, 1, 1, 2]
 
 
 @st.composite
+def shared_generator_cases(draw):
+    return {'shared_generator': {'how': draw(st.sampled_from(['volatile', 'volatile', 'cancel', 'until'])),
+                                 'queued_behind': draw(st.booleans()), 'hold': draw(st.sampled_from([0, 0.5, 2]))}}
+
+
+@st.composite
 def cases(draw, tier):
     big = tier == 'thorough'
     ncont = draw(st.integers(2, 5 if big else 4))
@@ -210,9 +216,82 @@ class C09(Check):
     design_ref = 'DESIGN.md section 4, C09'
 
     def strategy(self, tier):
-        return cases(tier)
+        return st.one_of(*([cases(tier)] * 15 + [shared_generator_cases()]))
+
+    def generator_case(self, case):
+        """A contender asks for the lock from inside an async generator (every step is produced under the lock) that the
+        activity which created it still references, and is ended - closed forcefully, cancelled, interrupted - while it
+        waits there: the lock passes it by; it is free once the holder has left, and a later contender gets it."""
+        import usim
+        from vlib.probe import run_probed
+        out = Outcome()
+        out.evals = 1
+        spec = case['shared_generator']
+        seen = {}
+
+        async def guarded(lock):
+            for step in range(3):
+                async with lock:
+                    yield step
+
+        async def consume(steps):
+            async for _ in steps:
+                await (usim.time + 1)
+
+        async def bounded(steps):
+            async with usim.until(usim.time + 0.5):
+                await consume(steps)
+
+        async def waiter(lock, key, hold):
+            async with lock:
+                seen[key] = usim.time.now
+                await (usim.time + hold)
+
+        async def main():
+            lock = usim.Lock()
+            steps = guarded(lock)           # this frame keeps the generator referenced
+            async with usim.Scope() as outer:
+                if spec['queued_behind']:
+                    outer.do(waiter(lock, 'behind', 1), after=0.5)
+                async with lock:
+                    if True:
+                        async with usim.Scope() as scope:
+                            helper = scope.do(bounded(steps) if spec['how'] == 'until' else consume(steps),
+                                              volatile=spec['how'] == 'volatile')
+                            await (usim.time + 1)
+                            if spec['how'] == 'cancel':
+                                helper.cancel()
+                    await (usim.time + spec['hold'])
+                seen['free'] = lock.available
+                seen['released'] = usim.time.now
+                outer.do(waiter(lock, 'late', 0), after=1)
+                await (usim.time + 6)
+            del steps
+        oc, exc, _ = run_probed([main()], till=60, probe=Probe(b_step=2000, b_total=20000))
+        if oc != 'ok':
+            out.fail('run_outcome', 'shared_generator:%s:%s' % (oc, type(exc).__name__), 'run() ended with %s %r' % (oc, exc))
+            return out
+        rel = seen.get('released')
+        if spec['queued_behind']:
+            if seen.get('behind') != rel:
+                out.fail('handoff', 'shared_generator:starved', 'the contender queued behind an ended waiter got the lock at %r, the '
+                         'holder left at %r (%s)' % (seen.get('behind'), rel, spec['how']))
+            want_late = max(rel + 1, rel + 1)       # the one behind holds for 1
+        else:
+            if seen.get('free') is not True:
+                out.fail('available', 'shared_generator:not_free', 'nobody holds the lock and its only waiter has ended (%s), but it '
+                         'is not free' % spec['how'])
+            want_late = rel + 1
+        if seen.get('late') != want_late:
+            out.fail('handoff', 'shared_generator:late_contender_starved', 'a contender asking at %r got the lock at %r (%s)' % (
+                rel + 1, seen.get('late'), spec['how']))
+        out.nontrivial = True
+        out.features.add('waiter_ended_inside_shared_generator')
+        return out
 
     def run_case(self, case, tier='quick'):
+        if 'shared_generator' in case:
+            return self.generator_case(case)
         out = Outcome()
         prog = case['prog']
         mk = lambda: Probe(b_step=4000, b_total=40000)  # noqa
